@@ -60,6 +60,15 @@ def Safe_subAssignRef (a b : Container) : Prop :=
 
 instance (a b : Container) : Decidable (Safe_subAssignRef a b) := by unfold Safe_subAssignRef; infer_instance
 
+/-- container.rs `BitAndAssign<Container>` (owned rhs): store/mod.rs:349-371 `BitAndAssign<Store>` has the cells of the
+    by-reference impl (array-array: `mem::swap` + scalar visitor; bitset-bitset: `op_bitmaps`; array-bitset and, after the
+    `mem::swap(this, &mut rhs)`, bitset-array: `retain(|x| bits.contains(x))`), then `ensure_correct_store` -/
+def Safe_andAssignOwned (a b : Container) : Prop :=
+  a.store.Safe_andAssignRef b.store
+  ∧ Safe_ensureCorrectStore { a with store := a.store.andAssignOwned b.store }
+
+instance (a b : Container) : Decidable (Safe_andAssignOwned a b) := by unfold Safe_andAssignOwned; infer_instance
+
 end Container
 
 namespace Bitmap
@@ -137,6 +146,60 @@ def Safe_tryMultiAndRefWith {ε : Type} (sort : List Bitmap → List Bitmap) (h 
   | .error _ => True
   | .ok (some (lhs, rest)) => Safe_assignLoop Bitmap.Safe_andAR andAssignRef lhs rest
   | .ok none => True
+
+/-- the closure of `retain_mut` in ops.rs:244-255 as the model's `andAssignOwned` folds it: state = (kept containers in
+    reverse, `rhs` with the matched containers `mem::replace`d by empty ones) -/
+def andOwnedStep (st : List Container × List Container) (cont : Container) : List Container × List Container :=
+  match Bitmap.search st.2 cont.key with
+  | (true, loc) =>
+    match st.2[loc]? with
+    | some rc =>
+      let rhs' := st.2.set loc (Container.new rc.key)
+      let c := cont.andAssignOwned rc
+      if !c.isEmpty then (c :: st.1, rhs') else (st.1, rhs')
+    | none => st
+  | (false, _) => st
+
+/-- the model's `andAssignOwned` is the fold of `andOwnedStep` (definitional) -/
+theorem andAssignOwned_eq_fold (self rhs : Bitmap) :
+    andAssignOwned self rhs =
+      (((if rhs.length < self.length then rhs else self).foldl andOwnedStep
+        ([], if rhs.length < self.length then self else rhs)).1.reverse) := by
+  unfold andAssignOwned
+  by_cases h : rhs.length < self.length
+  · simp only [h, decide_true, if_true]; rfl
+  · simp only [h, decide_false, if_false, Bool.false_eq_true]; rfl
+
+/-- ops.rs:244-255: every call of the closure on the `rhs` the calls before left (`rhs.containers[loc]` is valid; the
+    container-level `&=` with the moved-out container) -/
+def Safe_andOwnedLoop : List Container → List Container × List Container → Prop
+  | [], _ => True
+  | cont :: cs, st =>
+    Bitmap.Safe_searchStep Container.Safe_andAssignOwned st.2 cont    -- :246 `binary_search_by_key`, :248 `&mut rhs.containers[loc]`, :250
+    ∧ Safe_andOwnedLoop cs (andOwnedStep st cont)
+
+instance : ∀ (cs : List Container) (st : List Container × List Container), Decidable (Safe_andOwnedLoop cs st)
+  | [], _ => isTrue trivial
+  | cont :: cs, st => by
+    unfold Safe_andOwnedLoop
+    have := instDecidableSafe_andOwnedLoop cs (andOwnedStep st cont)
+    infer_instance
+
+/-- ops.rs:236-257 `a &= b` (owned): `if rhs.containers.len() < self.containers.len() { mem::swap(self, &mut rhs) }`, then the loop -/
+def Safe_andAO (self rhs : Bitmap) : Prop :=
+  Safe_andOwnedLoop (if rhs.length < self.length then rhs else self) ([], if rhs.length < self.length then self else rhs)
+instance (a b : Bitmap) : Decidable (Safe_andAO a b) := by unfold Safe_andAO; infer_instance
+
+/-- multiops.rs:118-141 `try_multi_and_owned`, for the order `sort` the unstable sort produced -/
+def Safe_tryMultiAndOwnedWith {ε : Type} (sort : List Bitmap → List Bitmap) (h : Hint) (xs : List (Except ε Bitmap)) : Prop :=
+  match andStartWith sort h xs with
+  | .error _ => True
+  | .ok (some (lhs, rest)) => Safe_assignLoop Safe_andAO andAssignOwned lhs rest
+  | .ok none => True
+
+instance {ε : Type} (sort : List Bitmap → List Bitmap) (h : Hint) (xs : List (Except ε Bitmap)) :
+    Decidable (Safe_tryMultiAndOwnedWith sort h xs) := by
+  unfold Safe_tryMultiAndOwnedWith; split <;> infer_instance
 
 instance {ε : Type} (sort : List Bitmap → List Bitmap) (h : Hint) (xs : List (Except ε Bitmap)) :
     Decidable (Safe_tryMultiAndRefWith sort h xs) := by
